@@ -24,7 +24,9 @@ PEER_DER = make_cert("ec", "client-cert")[2]
 PEER_FP = "sha256:" + hashlib.sha256(PEER_DER).hexdigest()
 PEER_DER2 = make_cert("ec", "client-cert")[2]          # same subject, another key
 IDENTITIES = [(None, ("192.0.2.7", 40000)), (PEER_DER, ("192.0.2.7", 40000)), (PEER_DER2, ("2001:db8::9", 40001, 0, 0)),
-              (None, ("2001:db8::9", 40002, 0, 0)), (PEER_DER, ("198.51.100.3", 40003))]
+              (None, ("2001:db8::9", 40002, 0, 0)), (PEER_DER, ("198.51.100.3", 40003)),
+              # addresses that EMBED another address (IPv4-mapped, 6to4): the peer is the address the socket reports
+              (None, ("::ffff:10.1.2.3", 40004, 0, 0)), (PEER_DER2, ("2002:c000:204::1", 40005, 0, 0)), (None, ("fe80::1%eth0", 40006, 0, 2))]
 BODY = "BODY-SENTINEL-é\n"           # what handlers return as text body
 BODY_B = BODY.encode("utf-8")
 BODY_BYTES = b"\x00\xffBODY-BYTES\r\n"   # bytes body (not valid UTF-8, contains CRLF)
@@ -88,7 +90,10 @@ def concretise(s, rnd):
         else:
             line = _pad_path(u, "", ll, rnd).encode()
     elif cls == "titan":
-        suffix = ";size=%d;mime=text/plain" % s["tsize"] if ll >= 45 else ";size=%d" % s["tsize"]
+        # parameters in any order; a token may contain '=' (base64 padding, key=value secrets)
+        suffix = rnd.choice([";size=%d;mime=text/plain", ";mime=text/plain;size=%d", ";size=%d;token=YQ==;mime=text/plain",
+                             ";token=user=alice;size=%d", ";size=%d;mime=text/plain"]) % s["tsize"] if ll >= 60 else \
+            (";size=%d;mime=text/plain" % s["tsize"] if ll >= 45 else ";size=%d" % s["tsize"])
         line = _pad_path("titan://%s/" % HOST, suffix, ll, rnd).encode()
     elif cls == "titanBad":
         cands = [b for b in BAD_TITAN if len("titan://%s/" % HOST) + len(b) <= ll]
@@ -102,6 +107,8 @@ def concretise(s, rnd):
     if after:
         # arbitrary bytes, including CRLF and header look-alikes
         pool = [b"\r\n", b"x", b"\x00", b"\xff", b"gemini://evil/\r\n", b"20 text/gemini\r\n", b"ABC"]
+        if rnd.random() < 0.35:
+            pool = [b"x", b"\x00", b"\xff", b"ABC", b"\r", b"gemini://evil/"]       # long stretches without any line terminator
         tail = b""
         while len(tail) < after:
             tail += rnd.choice(pool)
